@@ -5,6 +5,11 @@ ROOT = os.path.join(os.path.dirname(os.path.abspath(__file__)), "..")
 props = [json.loads(l) for l in open(os.path.join(ROOT, "properties.jsonl")) if l.strip()]
 
 CLAIMS = {
+    "C05": dict(
+        text="Lean 4 theorems: crc16_window / crc32c_window — for EVERY message, position and replacement pattern, two byte strings that differ only inside a window of at most 2 (CRC-16/X.25) resp. 4 (CRC-32C) consecutive bytes have different checksums; single-bit flips as the one-byte case (crc*_bitflip). Proof: the reflected bit step is GF(2)-linear (crcBit_xor) and, the polynomial having its top bit set, a non-zero difference of two runs cannot vanish within the next w/8 bytes nor afterwards (diff_survives, diff_persists), plus a 255-row table per width checked in the kernel. Block level: a block whose zeroed-CRC re-encoding differs from a verifying block's only inside such a window with the same stored CRC fails check_crc (primary_corruption_detected_16), a changed CRC value alone fails it (crc_value_change_detected), uncorrupted and CRC-less blocks pass. Tie to the code: for generated bundles with CRC-16/32 on all blocks EVERY bit position of every block is flipped, every byte-aligned window gets replacement patterns (exhaustive 2-byte patterns in thorough), CRC values are overwritten; the real decoder + crc_valid outcome class is compared with the model's, and 'valid and different' inside the alarm condition is the failure.",
+        note="The bundle-level statement (decode of corrupted bytes, same block ranges, re-encoding equals received bytes) is covered by the correspondence run and by the block-level theorems, not by one bundle-level theorem; canonical-block and CRC-32 variants of the block-level theorem follow the same proof and are not all spelled out. Trusted: Lean kernel; axioms propext, Classical.choice, Quot.sound; model CRC = crc crate (correspondence).",
+        technique="Lean 4 proof (GF(2) linearity + magnitude invariant of the CRC state) + exhaustive-position corruption correspondence",
+        design="§6 C05"),
     "C17": dict(
         text="Lean 4 theorems: unix_eq / unix_fits (unix(t) = t/1000 + 946684800, no wrap for any u64), string_branch (RFC 3339 branch exactly up to the last ms of year 9999, plain-number branch beyond; no overflowing arithmetic on either), and the calendar: humantime's civil-from-days algorithm (copied line by line, with its truncating i64 divisions) inverts the independent proleptic-Gregorian daysFromCivil for EVERY day from 2000-01-01 on (civil_inverse_general by per-level omega lemmas for 400/100/4/1-year cycles + a 366-row month table checked in the kernel; civil_inverse_early for the 60 days with negative day count), the printed year is 2000..9999, the day exists in the month incl. 29 February only in leap years (mday_valid_*), and day number, hour, minute, second, millisecond recombine to t + 946684800000 (date_denotes, time_denotes, digit identities). Tie to the code: unix()/string()/Display/dtn_time_now of the real crate vs the model on every day boundary of years 2000, 2001, 2004, 2100, 2400, 9999 ± 1 ms, the u64 boundary set, and random times; the oracle is an independent civil-from-days (Hinnant) in the harness.",
         note="Trusted: Lean kernel; axioms propext, Classical.choice, Quot.sound; humantime 2.4's formatter is a dependency copied into the model (correspondence-checked), SystemTime/Duration arithmetic below 2^63 s. dtn_time_now with a clock before 2000 is outside the environment assumption.",
